@@ -148,7 +148,7 @@ func NewUniverse(hashes [][]byte) (*Universe, error) {
 	return u, nil
 }
 
-func (u *Universe) N() int            { return len(u.Hashes) }
+func (u *Universe) N() int             { return len(u.Hashes) }
 func (u *Universe) Hash(id int) []byte { return u.Hashes[id-1] }
 
 // ID is 0 for bytes that are no member of the universe.
